@@ -56,6 +56,41 @@ def r06_1(ctx, rule='R06.1'):
                 ctx.violated(rule, construct, st, node,
                              'set in __init__%s but not part of hash_key(): two %s nodes that differ only in %s hash equal, so CSE merges them '
                              'and the form cache confuses the forms' % (' and read by the code generator' if by_gen else '', c.name, a))
+    # numbers must enter the key through a text encoding: CPython hashes -1 and -2 (and -1.0 and -2.0) to the same value, so a
+    # raw numeric attribute in the hashed tuple makes e.g. the constants -1 and -2 indistinguishable
+    n_num = 0
+    for c in classes:
+        m = ctx.prog.mro_lookup(c, 'hash_key')
+        if m is None or m.cls is not c:
+            continue
+        numeric = set()
+        for x in ast.walk(c.node):
+            if isinstance(x, ast.BinOp) and isinstance(x.op, (ast.Add, ast.Sub, ast.Mult, ast.Div)):
+                for side in (x.left, x.right):
+                    if isinstance(side, ast.Attribute) and src(side.value) == 'self':
+                        numeric.add(side.attr)
+            if isinstance(x, ast.Call) and call_name(x) in ('float', 'abs') and x.args and isinstance(x.args[0], ast.Attribute) and src(x.args[0].value) == 'self':
+                numeric.add(x.args[0].attr)
+        init = c.methods.get('__init__')
+        if init is not None:
+            for s in own_nodes(init.node):
+                if isinstance(s, ast.Assign) and isinstance(s.value, ast.Call) and call_name(s.value) in ('float', 'int') \
+                        and isinstance(s.targets[0], ast.Attribute) and src(s.targets[0].value) == 'self':
+                    numeric.add(s.targets[0].attr)
+        for r in guards.returns_of(m.node):
+            if r.value is None or not isinstance(r.value, ast.Tuple):
+                continue
+            for el in r.value.elts:
+                if isinstance(el, ast.Attribute) and src(el.value) == 'self' and el.attr in numeric:
+                    n_num += 1
+                    ctx.violated(rule, c.qual, 'numeric attribute %s enters the hash through a text encoding' % el.attr, r,
+                                 'hash_key() returns the number self.%s itself; hash(-1.0) == hash(-2.0) == -2 in CPython, so two %s nodes with the '
+                                 'values -1 and -2 hash equal: the forms -u*v and -2*u*v share a cache entry' % (el.attr, c.name))
+                elif any(isinstance(a, ast.Attribute) and src(a.value) == 'self' and a.attr in numeric for a in ast.walk(el)):
+                    n_num += 1
+                    enc = isinstance(el, ast.Call) and (call_name(el) in ('repr', 'str') or (isinstance(el.func, ast.Attribute) and el.func.attr == 'hex'))
+                    ctx.decide(rule, c.qual, 'numeric attribute enters the hash through a text encoding: ' + src(el), enc or None, r,
+                               'repr()/str()/hex() of a float is injective and hashes without the -1/-2 collision')
     # positive control: a class with an unhashed attribute must be reported by the same enumeration
     ctrl = ast.parse("class X:\n    def __init__(self, f):\n        self.funcname = f\n        self.shape = ()\n    def hash_key(self):\n        return ()").body[0]
     ok = False
@@ -465,7 +500,59 @@ def r06_9(ctx):
             ctx.undecided('R06.9', m.qual, src(r), r, 'form of the constant test not recognised')
 
 
+def r06_10(ctx):
+    """transform_expr rewrites `.children` of inner nodes in place.  add() passes the caller's expression to
+    substitute_vec_components once per output component, so every component must be computed on its own deep copy: a component
+    computed on the original turns the caller's tree (and every sub-expression object the caller still holds and may use in a
+    later add()) into that component's instance."""
+    m = ctx.prog.func(VF + '.VForm.substitute_vec_components')
+    params = [a.arg for a in m.node.args.args][1:]
+    calls = [c for c in own_nodes(m.node) if isinstance(c, ast.Call) and call_name(c) in ('transform_expr', 'transform_exprs') and c.args]
+    ctx.floor('R06.10', 'destructive transforms in substitute_vec_components', len(calls), 3)
+
+    def fresh(e, depth=0):
+        """True: a private copy; False: (possibly) the caller's object; None: unknown"""
+        if isinstance(e, ast.Call):
+            nm = call_name(e) or ''
+            if nm in ('copy.deepcopy', 'deepcopy'):
+                return True
+            if nm in ('transform_expr',) and e.args:
+                return fresh(e.args[0], depth + 1)
+            return None
+        if isinstance(e, ast.IfExp):
+            a, b = fresh(e.body, depth + 1), fresh(e.orelse, depth + 1)
+            if a is False or b is False:
+                return False
+            return True if (a and b) else None
+        if isinstance(e, ast.Name):
+            if e.id in params:
+                return False
+            if depth > 6:
+                return None
+            defs = [s for s in own_nodes(m.node) if isinstance(s, ast.Assign) and any(isinstance(t, ast.Name) and t.id == e.id for t in s.targets)
+                    and s.lineno < getattr(e, 'lineno', 10 ** 9)]
+            if not defs:
+                return None
+            # the closest preceding definition in the same block decides; all definitions that are not re-transforms are examined
+            verdicts = []
+            for d in defs:
+                if isinstance(d.value, ast.Call) and call_name(d.value) == 'transform_expr' and d.value.args and src(d.value.args[0]) == e.id:
+                    continue        # e = transform_expr(e, ...): inherits from the earlier definition
+                verdicts.append(fresh(d.value, depth + 1))
+            if any(v is False for v in verdicts):
+                return False
+            return True if verdicts and all(v is True for v in verdicts) else None
+        return None
+    for c in calls:
+        v = fresh(c.args[0])
+        ctx.decide('R06.10', m.qual, 'argument of the destructive %s(%s, ...) is a private copy' % (call_name(c), src(c.args[0])), v, c,
+                   'each output component is computed on copy.deepcopy(expr)' if v else
+                   'on some path `%s` is the caller\'s expression itself (not a deep copy): transform_expr rewrites it in place, so the tree handed to add() '
+                   '-- and any sub-expression the caller reuses in a later add() -- becomes this component\'s instance' % src(c.args[0]), definite=True)
+
+
 def run(ctx):
+    r06_10(ctx)
     r06_9(ctx)
     r06_7(ctx)
     r06_1(ctx)
